@@ -31,7 +31,9 @@ CONSTANTS KeyNames,    \* canonical key names
           Errors,      \* TSIG error field values a signer may put (0 = none)
           Kinds,       \* subset of {"query", "response", "stream"}
           MaxEnv,      \* envelopes per stream
-          MaxFaults    \* fault actions per message
+          MaxFaults,   \* fault actions per message
+          MaxResign,   \* renderings of one message object after the first (query / response)
+          ResignMods   \* subset of {"none", "id", "head", "body"}: what is modified before rendering again
 
 ---------------------------------------------------------------------------
 (* Algorithms (RFC 8945 section 6 and the fixed-truncation names the library offers) *)
@@ -155,29 +157,43 @@ Init ==
     /\ net = <<>> /\ sent = 0 /\ lastsigned = FALSE /\ mf = {} /\ cf = {} /\ skew = 0 /\ taint = FALSE
     /\ verdicts = <<>> /\ dead = FALSE
 
-Limit == IF kind = "stream" THEN MaxEnv ELSE 1
 Multi == kind = "stream"
+Limit == IF Multi THEN MaxEnv ELSE 1 + MaxResign
 
 (* the signer *)
 BaseMsg(i) == [id |-> 7, head |-> <<"head", i>>, ar |-> 1, body |-> <<"body", i>>, pos |-> "none", rr |-> NoRR]
-Send(signed) ==
+(* render m0; when signed, the TSIG RR carries origid and a MAC over what is rendered NOW *)
+SendMsg(m0, origid, signed) ==
     /\ net = <<>> /\ ~dead /\ sent < Limit
     /\ (signed \/ (Multi /\ sent >= 1))
-    /\ LET i == sent + 1
-           m0 == BaseMsg(i)
-       IN IF signed
-          THEN LET rr0 == [NoRR EXCEPT !.owner = [n |-> skey.name, sp |-> 0], !.alg = [n |-> skey.alg, sp |-> 0],
-                                       !.time = T0, !.fudge = fudge, !.origid = m0.id, !.error = serror]
-                   m1 == [m0 EXCEPT !.ar = 2, !.pos = "last", !.rr = rr0]
-                   mac == Mac(skey.alg, skey.secret, Digest(XOf(m1, sprior, spend), sent = 0 \/ ~Multi, AbsMacLen))
-               IN /\ net' = << [m1 EXCEPT !.rr.mac = mac] >>
-                  /\ sprior' = IF Multi THEN <<mac>> ELSE sprior
-                  /\ spend' = <<>>
-          ELSE /\ net' = <<m0>>
-               /\ spend' = Append(spend, m0)
-               /\ sprior' = sprior
+    /\ IF signed
+       THEN LET rr0 == [NoRR EXCEPT !.owner = [n |-> skey.name, sp |-> 0], !.alg = [n |-> skey.alg, sp |-> 0],
+                                    !.time = T0, !.fudge = fudge, !.origid = origid, !.error = serror]
+                m1 == [m0 EXCEPT !.ar = 2, !.pos = "last", !.rr = rr0]
+                mac == Mac(skey.alg, skey.secret, Digest(XOf(m1, sprior, spend), sent = 0 \/ ~Multi, AbsMacLen))
+            IN /\ net' = << [m1 EXCEPT !.rr.mac = mac] >>
+               /\ sprior' = IF Multi THEN <<mac>> ELSE sprior
+               /\ spend' = <<>>
+       ELSE /\ net' = <<m0>>
+            /\ spend' = Append(spend, m0)
+            /\ sprior' = sprior
     /\ sent' = sent + 1 /\ lastsigned' = signed /\ mf' = {}
     /\ UNCHANGED <<kind, skey, fudge, serror, ring, rreq, rprior, rpend, raccepted, cf, skew, taint, verdicts, dead>>
+Send(signed) ==
+    /\ (Multi \/ sent = 0)
+    /\ SendMsg(BaseMsg(sent + 1), BaseMsg(sent + 1).id, signed)
+(* The SAME message object (TSIG arranged once, original id fixed then) is rendered again,
+   after no change or after a change of its id, header or content: every rendering is a
+   message the library signs, so its MAC covers what THIS rendering contains.  In a stream
+   the re-rendering is the next envelope. *)
+Modify(m, mod) ==
+    CASE mod = "none" -> m
+      [] mod = "id" -> [m EXCEPT !.id = 9]
+      [] mod = "head" -> [m EXCEPT !.head = <<"head", 100 + @[2]>>]
+      [] mod = "body" -> [m EXCEPT !.body = <<"body", 100 + @[2]>>]
+Resign(mod) ==
+    /\ sent >= 1 /\ lastsigned /\ mod \in ResignMods
+    /\ SendMsg(Modify(BaseMsg(sent), mod), BaseMsg(sent).id, TRUE)
 
 (* faults on the message in flight.  Authenticated regions: *)
 SignedRegions == {"head", "ar", "body", "tsig.time", "tsig.fudge", "tsig.mac", "tsig.origid", "tsig.error",
@@ -230,14 +246,14 @@ StripTsig ==
 (* faults on the receiver's side *)
 ConfigFault(what) ==
     /\ ~dead /\ net # <<>> /\ Cardinality(cf) < MaxFaults /\ what \notin cf
-    /\ CASE what = "wrongkey" -> /\ raccepted = 0    \* the secret is bound when the exchange starts (running HMAC context)
+    /\ CASE what = "wrongkey" -> /\ (raccepted = 0 \/ ~Multi)    \* the secret is bound when the exchange starts (running HMAC context)
                                  /\ ring' = {[skey EXCEPT !.secret = "forged-secret"]} /\ UNCHANGED <<rreq, rprior>>
          [] what = "wrongname" -> ring' = {[skey EXCEPT !.name = "another-name"]} /\ UNCHANGED <<rreq, rprior>>
          [] what = "wrongalg" -> ring' = {[skey EXCEPT !.alg = IF @ = "hmac-sha1" THEN "hmac-sha224" ELSE "hmac-sha1"]}
                                  /\ UNCHANGED <<rreq, rprior>>
-         [] what = "wrongreqmac" -> /\ kind # "query" /\ raccepted = 0
+         [] what = "wrongreqmac" -> /\ kind # "query" /\ (raccepted = 0 \/ ~Multi)
                                     /\ rreq' = <<OtherMac(skey)>> /\ rprior' = <<OtherMac(skey)>> /\ ring' = ring
-         [] what = "noreqmac" -> /\ kind # "query" /\ raccepted = 0
+         [] what = "noreqmac" -> /\ kind # "query" /\ (raccepted = 0 \/ ~Multi)
                                  /\ rreq' = <<>> /\ rprior' = <<>> /\ ring' = ring
     /\ cf' = cf \cup {what}
     /\ UNCHANGED <<kind, skey, fudge, serror, rpend, raccepted, spend, sprior, net, sent, lastsigned, mf, skew, taint, verdicts, dead>>
@@ -271,7 +287,7 @@ Deliver ==
           /\ CASE v = "ok" -> /\ rprior' = IF Multi THEN <<m.rr.mac>> ELSE rprior
                               /\ rpend' = <<>> /\ raccepted' = raccepted + 1 /\ taint' = FALSE /\ dead' = FALSE
                [] v = "unsigned" -> /\ rpend' = IF Multi /\ raccepted > 0 THEN Append(rpend, m) ELSE rpend
-                                    /\ taint' = (taint \/ mf # {})
+                                    /\ taint' = (Multi /\ (taint \/ mf # {}))   \* only a stream carries state from one message to the next
                                     /\ UNCHANGED <<rprior, raccepted>> /\ dead' = FALSE
                [] OTHER -> dead' = TRUE /\ UNCHANGED <<rprior, rpend, raccepted, taint>>
     /\ net' = <<>> /\ mf' = {}
@@ -279,6 +295,7 @@ Deliver ==
 
 Next ==
     \/ \E s \in BOOLEAN : Send(s)
+    \/ \E md \in ResignMods : Resign(md)
     \/ \E r \in SignedRegions \cup UnsignedRegions : Tamper(r)
     \/ \E w \in {"benign.id", "benign.owner", "benign.alg"} : Benign(w)
     \/ MoveTsig \/ StripTsig
